@@ -746,3 +746,21 @@ func (l *Listener) StopCheck() (events []dagsync.SyncFinished, closed bool) {
 		}
 	}
 }
+
+// StopCheckNoWait cancels and drains what is available right now without
+// waiting for quiescence (for use from scheduled harness threads, which must
+// not call synctest.Wait).
+func (l *Listener) StopCheckNoWait() (events []dagsync.SyncFinished, closed bool) {
+	l.cancel()
+	for {
+		select {
+		case ev, ok := <-l.C:
+			if !ok {
+				return events, true
+			}
+			events = append(events, ev)
+		default:
+			return events, false
+		}
+	}
+}
